@@ -684,6 +684,19 @@ def evaluate(F, actions):
     try: return list(F), None
     except Exception as e: return None, e
 
+def _features_collided(before, after):
+    """a sparse action had more non-zero features than the dense vector it was hashed into has non-zero cells"""
+    try:
+        if before is None or after is None: return False
+        for b, a in zip(before, after):
+            if not hasattr(b, "items"): continue
+            nb = sum(1 for _, v in b.items() if not (isinstance(v, (int, float)) and v == 0))
+            na = sum(1 for v in a if not (isinstance(v, (int, float)) and v == 0))
+            if na < nb: return True
+    except Exception:
+        return False
+    return False
+
 def has_dups(actions):
     for i in range(len(actions)):
         for j in range(i):
@@ -751,6 +764,10 @@ def check_prefix(orig, outs, step, chain, prev_rows, note, viol, info, sigfs=Non
             if may_collide and has_dups(a1):
                 # from here on "the i-th action" is ill-defined for this interaction, also for the later filters
                 note("discarded.collision"); info["dead"].add(j); continue
+            if may_collide and _features_collided(p0.get("actions"), a1):
+                # two features of one action were hashed into one column (the hashing trick "may have collisions"): the column then
+                # mixes value types across the actions and what the action "is" is no longer defined by the data
+                note("discarded.collision.within-action"); info["dead"].add(j); continue
         for field in ("rewards", "feedbacks"):
             if field not in o0: continue
             if field not in o1:
